@@ -86,3 +86,90 @@ pub fn with_msg<V: WithMsg>(carrier: u8, s: u8, d1: u8, d2: u8, v: V) -> V::Out 
         _ => v.call(&api(|| ForeignTuple::from_bytes(bytes)).expect("valid status")),
     }
 }
+
+/// A third-party factory that *relies on the documented precondition* of `from_bytes_unchecked`
+/// ("callers must make sure that the given status byte is valid"): it stores only the seven low
+/// bits of the status byte and re-adds the high bit when asked.
+#[derive(Clone, Copy, Debug, PartialEq, Eq)]
+pub struct ForeignMasked {
+    pub status7: u8,
+    pub d1: U7,
+    pub d2: U7,
+}
+
+impl ShortMessage for ForeignMasked {
+    fn status_byte(&self) -> u8 {
+        0x80 | self.status7
+    }
+    fn data_byte_1(&self) -> U7 {
+        self.d1
+    }
+    fn data_byte_2(&self) -> U7 {
+        self.d2
+    }
+}
+
+impl ShortMessageFactory for ForeignMasked {
+    unsafe fn from_bytes_unchecked(bytes: (u8, U7, U7)) -> Self {
+        ForeignMasked { status7: bytes.0 & 0x7f, d1: bytes.1, d2: bytes.2 }
+    }
+}
+
+// ---------------------------------------------------------------------------------------------
+// Compile-time probes (autoref specialisation): does some *other* type implement the traits?
+// If a later version of the crate adds an implementor (a byte tuple, `&M`, ...), the checks pick
+// it up without the harness having to name an impl that does not exist today.
+// ---------------------------------------------------------------------------------------------
+
+pub struct Probe<T>(pub core::marker::PhantomData<T>);
+
+pub fn probe<T>() -> Probe<T> {
+    Probe(core::marker::PhantomData)
+}
+
+/// (status, d1, d2) of a message through its three getters and through to_bytes
+pub type ProbeBytes = ((u8, u8, u8), (u8, u8, u8));
+
+pub trait ProbeFactoryYes<T> {
+    /// Some(result of from_bytes as observed bytes) if T implements the factory trait
+    fn try_from_bytes(&self, b: (u8, U7, U7)) -> Option<Result<ProbeBytes, ()>>;
+}
+impl<T: ShortMessageFactory> ProbeFactoryYes<T> for Probe<T> {
+    fn try_from_bytes(&self, b: (u8, U7, U7)) -> Option<Result<ProbeBytes, ()>> {
+        use crate::engine::api;
+        Some(api(|| T::from_bytes(b)).map(|m| {
+            let t = api(|| m.to_bytes());
+            ((api(|| m.status_byte()), api(|| m.data_byte_1()).get(), api(|| m.data_byte_2()).get()), (t.0, t.1.get(), t.2.get()))
+        }).map_err(|_| ()))
+    }
+}
+pub trait ProbeFactoryNo<T> {
+    fn try_from_bytes(&self, _b: (u8, U7, U7)) -> Option<Result<ProbeBytes, ()>> {
+        None
+    }
+}
+impl<T> ProbeFactoryNo<T> for &Probe<T> {}
+
+pub trait ProbeMessageYes<T> {
+    fn with_message<R>(&self, value: &T, f: &mut dyn FnMut(&dyn ErasedMessage) -> R) -> Option<R>;
+}
+/// object-safe view used by the probes
+pub trait ErasedMessage {
+    fn observe(&self) -> crate::p_short::Obs;
+}
+impl<M: ShortMessage> ErasedMessage for M {
+    fn observe(&self) -> crate::p_short::Obs {
+        crate::p_short::observe(self)
+    }
+}
+impl<T: ShortMessage> ProbeMessageYes<T> for Probe<T> {
+    fn with_message<R>(&self, value: &T, f: &mut dyn FnMut(&dyn ErasedMessage) -> R) -> Option<R> {
+        Some(f(value))
+    }
+}
+pub trait ProbeMessageNo<T> {
+    fn with_message<R>(&self, _value: &T, _f: &mut dyn FnMut(&dyn ErasedMessage) -> R) -> Option<R> {
+        None
+    }
+}
+impl<T> ProbeMessageNo<T> for &Probe<T> {}
